@@ -44,6 +44,10 @@ pub struct FontInfo {
     pub dir: Vec<disk::DirEntry>,
     pub woff2_inner: Option<(usize, Option<usize>)>,
     pub broken: bool,
+    /// Workload seeds shipped with the corpus (AOTS test cases): (script, language, feature, input
+    /// glyph ids). AOTS fonts map U+0001..U+0063 to the glyph of the same number, so the glyph
+    /// sequence is reached through `map_glyphs` as text.
+    pub seeds: Rc<Vec<(String, String, String, Vec<u16>)>>,
     /// Per table: the (offset, width) of every primitive read the library makes while walking
     /// the pristine table (recorded through the verif hook on first use).
     pub consumed: std::cell::RefCell<BTreeMap<String, Rc<Vec<(usize, u8)>>>>,
@@ -66,6 +70,8 @@ impl FontInfo {
 }
 
 pub struct Generator {
+    /// font file name -> AOTS test case inputs
+    aots_seeds: BTreeMap<String, Rc<Vec<(String, String, String, Vec<u16>)>>>,
     root: String,
     aots: Vec<String>,
     small: Vec<String>,
@@ -93,6 +99,45 @@ fn walk_dir(dir: &std::path::Path, out: &mut Vec<std::path::PathBuf>) {
             }
         }
     }
+}
+
+/// `gsub_test("font.otf", "latn", "UNKN", "test", &[00, 20, 21], ...)` lines of the corpus' AOTS
+/// test cases: the input glyph sequences known to exercise each font's lookups.
+fn parse_aots_seeds(root: &str) -> BTreeMap<String, Rc<Vec<(String, String, String, Vec<u16>)>>> {
+    let mut out: BTreeMap<String, Vec<(String, String, String, Vec<u16>)>> = BTreeMap::new();
+    let Ok(text) = std::fs::read_to_string(format!("{}/aots/testcases.rs", root)) else {
+        return BTreeMap::new();
+    };
+    let mut rest = text.as_str();
+    while let Some(p) = rest.find("_test(") {
+        let kind_ok = rest[..p].ends_with("gsub") || rest[..p].ends_with("gpos");
+        rest = &rest[p + 6..];
+        if !kind_ok {
+            continue;
+        }
+        let end = rest.find("\n}").unwrap_or(rest.len().min(600));
+        let call = &rest[..end.min(rest.len())];
+        let strings: Vec<&str> = call.split('"').skip(1).step_by(2).take(4).collect();
+        if strings.len() < 4 {
+            continue;
+        }
+        let Some(a) = call.find("&[") else { continue };
+        let Some(b) = call[a..].find(']') else { continue };
+        let gids: Vec<u16> = call[a + 2..a + b]
+            .split(',')
+            .filter_map(|x| x.trim().parse::<u16>().ok())
+            .collect();
+        if gids.is_empty() {
+            continue;
+        }
+        out.entry(strings[0].to_string()).or_default().push((
+            strings[1].to_string(),
+            strings[2].to_string(),
+            strings[3].to_string(),
+            gids,
+        ));
+    }
+    out.into_iter().map(|(k, v)| (k, Rc::new(v))).collect()
 }
 
 const COMPLEX_SCRIPTS: &[&str] = &[
@@ -124,6 +169,7 @@ impl Generator {
         let mut files = Vec::new();
         walk_dir(std::path::Path::new(root), &mut files);
         let mut g = Generator {
+            aots_seeds: parse_aots_seeds(root),
             root: root.to_string(),
             aots: Vec::new(),
             small: Vec::new(),
@@ -334,6 +380,11 @@ impl Generator {
             dir,
             woff2_inner,
             broken,
+            seeds: self
+                .aots_seeds
+                .get(rel.rsplit('/').next().unwrap_or(""))
+                .cloned()
+                .unwrap_or_default(),
             consumed: std::cell::RefCell::new(BTreeMap::new()),
         });
         self.info.insert(rel.to_string(), info.clone());
@@ -896,6 +947,18 @@ fn boundary_value(rng: &mut Rng, width: u8, len: usize, old: u32) -> u32 {
         _ => 0xFFFF_FFFF,
     };
     let len = len as u32;
+    // the small values and neighbours of the old value are where most off-by-one and
+    // emptiness assumptions live: give them a third of the draws
+    if rng.pct(34) {
+        let v = match rng.below(6) {
+            0 | 1 => 0,
+            2 => 1,
+            3 => old.wrapping_add(1),
+            4 => old.wrapping_sub(1),
+            _ => max,
+        };
+        return v & max;
+    }
     let v = match rng.below(22) {
         0 => 0,
         1 => 1,
@@ -1811,6 +1874,61 @@ pub fn gen_op(rng: &mut Rng, info: &FontInfo, kind: &str) -> Op {
                 text,
                 script,
                 required: rng.pct(25),
+            }
+        }
+        "Shape" if !info.seeds.is_empty() && rng.pct(55) => {
+            // a known-good workload for this font, possibly perturbed
+            let (script, lang, feature, gids) = rng.pick(&info.seeds).clone();
+            let mut chars: Vec<char> = gids.iter().filter_map(|g| char::from_u32(u32::from(*g))).collect();
+            if rng.pct(35) && !chars.is_empty() {
+                let k = rng.usize_below(chars.len());
+                match rng.below(4) {
+                    0 => {
+                        let c = chars[k];
+                        chars.insert(k, c);
+                    }
+                    1 => {
+                        chars.remove(k);
+                    }
+                    2 => {
+                        let j = rng.usize_below(chars.len());
+                        chars.swap(k, j);
+                    }
+                    _ => {
+                        if let Some(c) = char::from_u32(gen_char(rng, info)) {
+                            chars[k] = c;
+                        }
+                    }
+                }
+            }
+            let mut custom = vec![(feature, None)];
+            if rng.pct(25) {
+                custom.push((rng.pick(FEATURE_TAGS).to_string(), None));
+            }
+            Op::Shape {
+                text: chars.into_iter().collect(),
+                script: if rng.pct(85) { script } else { gen_script(rng, info, "") },
+                lang: match rng.below(4) {
+                    0 => None,
+                    1 => gen_lang(rng, info),
+                    _ => Some(lang),
+                },
+                feat: Feat {
+                    mask: None,
+                    custom: Some(custom),
+                },
+                tuple: gen_tuple(rng, info, true),
+                kerning: rng.pct(60),
+                required: false,
+                positions: if rng.pct(70) {
+                    Some(Positions {
+                        rtl: rng.pct(35),
+                        vertical: rng.pct(20),
+                        prefix: if rng.pct(12) { Some(rng.usize_below(12)) } else { None },
+                    })
+                } else {
+                    None
+                },
             }
         }
         "Shape" => {
